@@ -72,8 +72,31 @@ def floors(tier):
             'distinct_nontrivial': 12 if q else 120}
 
 
+# small projects whose pkg_config() calls keep SEVERAL specifiers for one package (ranges,
+# bounds plus exclusions, public and private lists naming one package): today they are refused
+# at configure time - identically for every run -, and if they are ever accepted their entries
+# must come out in one order
+MINI = {
+    'pc-requirement-range': "project('mini', '1.0')\n"
+        "pkg_config('mini', version='1.0', requires=[('zlib', '>=1.2,<2.0')])\n",
+    'pc-requirement-bound-and-exclusions': "project('mini', '1.0')\n"
+        "pkg_config('mini', version='1.0', requires=[('zlib', '>=3,!=3.1,!=3.4'), 'libffi'], "
+        "requires_private=[('tinfo', '>=6,<7')])\n",
+    'pc-requirement-public-and-private': "project('mini', '1.0')\n"
+        "pkg_config('mini', version='1.0', requires=[('zlib', '>=1.2')], "
+        "requires_private=[('zlib', '<2.0'), ('liblz4', '!=1.5,!=1.7')])\n",
+}
+
+
 def cases(tier, seed):
     nproj = 10 if tier == 'quick' else 100
+    for j, name in enumerate(sorted(MINI)):
+        rr = core.rng_for(seed, 'c13mini', j)
+        yield {'index': 'mini:' + name, 'backend': ('make', 'ninja')[j % 2],
+               'project': {'files': {'build.bfg': MINI[name]}, 'features': ['mini:' + name],
+                           'conf_args': [], 'const_env': {}, 'toolchain': None,
+                           'name': name, 'dag_nodes': 0},
+               'runs': c13gen.gen_runs(rr, 6 if tier == 'quick' else 10), 'regen': []}
     for i in range(nproj):
         rng = core.rng_for(seed, 'c13', i)
         project = c13gen.gen_project(rng, i)
